@@ -2667,6 +2667,9 @@ impl CanonicalizeContext {
 			script.replace_children(new_children);
 			let lifted_base = as_element(mrow_children[i_multiscript]);
 			add_attrs(script, &lifted_base.attributes());
+			if lifted_base == base {
+				script.remove_attribute("id");		// the base is still there: its id stays with it
+			}
 			script.remove_attribute("data-split");		// doesn't make sense on mmultiscripts
 			script.remove_attribute("mathvariant");		// doesn't make sense on mmultiscripts
 			mrow_children[i_multiscript] = ChildOfElement::Element(script);
